@@ -558,7 +558,16 @@ func c03Run(prop, tier string, c Case, w *Worker) (res Result) {
 	for i, sz := range sizes {
 		content := genContent(sz, dists[(i+1+int(c.Seed%3))%3], subSeed(c.Seed, "ops", fmt.Sprint(i)))
 		name := fmt.Sprintf("/o%d", i)
-		ms = append(ms, fileMember(name, content, 0o640, mt))
+		switch {
+		case i%4 == 2 && sz > 0:
+			ms = append(ms, staleMember(name, content, 0o640, mt, 9)) // the source grew after it was scanned
+			res.count("members_with_stale_size", 1)
+		case i%4 == 3 && sz > 7:
+			ms = append(ms, staleMember(name, content, 0o640, mt, -7)) // ... or shrank
+			res.count("members_with_stale_size", 1)
+		default:
+			ms = append(ms, fileMember(name, content, 0o640, mt))
+		}
 		opsItems = append(opsItems, item{name, content, "archive"})
 	}
 	if _, err := rig.WOps.Archive(membersSrc(ms), cfg.Level, false, false); err != nil {
